@@ -36,6 +36,7 @@ from .c09 import conf_from_json, conf_to_json, pairs_eval, pairs_src
 PROP = "C10"
 DRIVER = Driver("driver_c10", "Drivers/C10.lean")
 D25 = "D25-key-payload-ambiguity"
+TX_MODES = ["fast", "locked", "serializable"]
 NEIGHBOUR = "zz:neighbour"
 
 TRUSTED = [
@@ -230,12 +231,16 @@ def unsigned_mutations(rng, key: str, blob: bytes, thorough: bool):
 # ----------------------------------------------------------------------------------------------------
 # one scenario on the implementation
 # ----------------------------------------------------------------------------------------------------
-def run_scenario(conf: S.Conf, writes, rng, thorough, stride=1, attacks=None, structural=0, write_log=None):
+def run_scenario(conf: S.Conf, writes, rng, thorough, stride=1, attacks=None, structural=0, write_log=None, tx_mode=None):
     """writes: [(key, value)].  Returns (legit {key: blob}, attack records).  structural = number of blobs of the scenario
     that additionally get the full-alphabet sweep at the structural positions.  attacks: None (generate), a list, or a
     function of the legitimate blobs.  An attack's 4th component is the reader's secret text, or (secret text, via) for a
     reader configured another way than the writer.  write_log (a list): one record per write incl. those that raised (a key
-    that has no UTF-8 encoding cannot be signed); without it a raising write is a harness error."""
+    that has no UTF-8 encoding cannot be signed); without it a raising write is a harness error.  tx_mode ("fast" | "locked" |
+    "serializable"): the reader opens a transaction of that mode for every attack, puts the blob back with set_raw INSIDE it and
+    reads it through the three paths inside the transaction (a second record, phase "inside ..."), lets the transaction commit,
+    and reads again (the ordinary record, phase "after the commit of ...")."""
+    from cashews.wrapper.transaction import TransactionMode
 
     async def go():
         wcache, _, wrec = conf.setup()
@@ -289,19 +294,36 @@ def run_scenario(conf: S.Conf, writes, rng, thorough, stride=1, attacks=None, st
                         await rc.delete(wk)
                 readers[(rsec, rvia)] = (rconf, rc, rr)
             rconf, rc, rr = readers[(rsec, rvia)]
-            await rc.set_raw(rkey, blob2)
-            rr.reset()
-            o_get = await S.read(rc.get(rkey, default=S.SENT))
-            calls = [(p, kind, res) for p, kind, res in rr.loads_calls]
-            rec = {"class": cls, "key": rkey, "blob": blob2, "secret": rsec, "via": rvia, "get": o_get, "loads": calls}
-            # the other read paths
-            rr.reset()
-            rec["many"] = await S.read(rc.get_many(rkey, NEIGHBOUR, default=S.SENT))
-            rec["many_loads"] = [p for p, _, _ in rr.loads_calls]
 
             async def gm():
                 return [kv async for kv in rc.get_match(rkey)]
 
+            if tx_mode is None:
+                await rc.set_raw(rkey, blob2)
+            else:
+                async with rc.transaction(mode=TransactionMode(tx_mode), timeout=10):
+                    await rc.set_raw(rkey, blob2)
+                    rr.reset()
+                    t_get = await S.read(rc.get(rkey, default=S.SENT))
+                    trec = {"class": cls, "key": rkey, "blob": blob2, "secret": rsec, "via": rvia, "get": t_get,
+                            "loads": list(rr.loads_calls), "tx": tx_mode, "phase": f"inside a {tx_mode} transaction"}
+                    rr.reset()
+                    trec["many"] = await S.read(rc.get_many(rkey, NEIGHBOUR, default=S.SENT))
+                    trec["many_loads"] = [p for p, _, _ in rr.loads_calls]
+                    rr.reset()
+                    trec["match"] = await S.read(gm())
+                    trec["match_loads"] = [p for p, _, _ in rr.loads_calls]
+                    recs.append(trec)
+            rr.reset()
+            o_get = await S.read(rc.get(rkey, default=S.SENT))
+            calls = [(p, kind, res) for p, kind, res in rr.loads_calls]
+            rec = {"class": cls, "key": rkey, "blob": blob2, "secret": rsec, "via": rvia, "get": o_get, "loads": calls}
+            if tx_mode is not None:
+                rec.update({"tx": tx_mode, "phase": f"after the commit of a {tx_mode} transaction"})
+            # the other read paths
+            rr.reset()
+            rec["many"] = await S.read(rc.get_many(rkey, NEIGHBOUR, default=S.SENT))
+            rec["many_loads"] = [p for p, _, _ in rr.loads_calls]
             rr.reset()
             rec["match"] = await S.read(gm())
             rec["match_loads"] = [p for p, _, _ in rr.loads_calls]
@@ -329,7 +351,7 @@ def run_scenario(conf: S.Conf, writes, rng, thorough, stride=1, attacks=None, st
 # model + oracles
 # ----------------------------------------------------------------------------------------------------
 # attack classes that are NOT alterations in the property's sense: the same secret configured another way
-MIRROR_ONLY = ("label", "digits", "same_secret_other_type", "reader_secret_unusable")
+MIRROR_ONLY = ("label", "digits", "same_secret_other_type", "reader_secret_unusable", "secretswap_hmac_equivalent")
 
 
 def judge(conf: S.Conf, legit: dict, recs, ids: S.Ids, stats: dict, nb_payload: bytes = b""):
@@ -385,7 +407,7 @@ def judge(conf: S.Conf, legit: dict, recs, ids: S.Ids, stats: dict, nb_payload: 
         if r["class"] == "reader_secret_unusable" and r["get"] == ("raised", "TypeError"):
             i_res = "macerr:secret"
         if i_res != res:
-            out.append((r, "model", None, f"get: impl {i_res[:100]} ({r['get'][1]!r}), model {res[:100]}"))
+            out.append((r, "model", None, f"get{' ' + r['phase'] if r.get('phase') else ''}: impl {i_res[:100]} ({r['get'][1]!r}), model {res[:100]}"))
         # get_many / get_match agree with get (same decode, same key)
         kind, val = r["get"]
         if kind in ("unsecure", "raised"):
@@ -412,7 +434,7 @@ def judge(conf: S.Conf, legit: dict, recs, ids: S.Ids, stats: dict, nb_payload: 
                     continue
                 if not independently_verifies(r["blob"], r["key"], sec, conf.digest, p):
                     out.append((r, "spec", "unpickler-on-unverified",
-                                f"{path}: unpickler was run on {p[:40]!r} although no signature over key||payload verifies "
+                                f"{path}{' ' + r['phase'] if r.get('phase') else ''}: unpickler was run on {p[:40]!r} although no signature over key||payload verifies "
                                 f"for key {r['key']!r}"))
         # (b2) an altered blob with the label intact never comes back as a value, only unsafe-data error or default
         in_scope = (r["secret"] is not None and conf.digest in S.KEYED and r["blob"].startswith(label)
@@ -438,8 +460,8 @@ def judge(conf: S.Conf, legit: dict, recs, ids: S.Ids, stats: dict, nb_payload: 
                 if not bad:
                     continue
                 sig = D25 if is_d25(r, legit, conf) else ("error-family" if kind == "raised" else "tampered-became-value")
-                what = (f"{path}: tampered blob ({r['class']}) read under key {r['key']!r}"
-                        f"{'' if same_reader else ' with another secret'} "
+                what = (f"{path}{' ' + r['phase'] if r.get('phase') else ''}: tampered blob ({r['class']}) put back with set_raw "
+                        f"and read under key {r['key']!r}{'' if same_reader else ' with another secret'} "
                         + (f"raised {shown}" if kind == "raised" else f"came back as the value {shown!r}"))
                 out.append((r, "spec", sig, what))
                 break
@@ -525,6 +547,11 @@ def confusable_key_pairs():
 SECRET_GROUPS = [["0042", "042", "42", "42.0", "+42", " 42"], ["1e3", "1000.0", "1000.00", "1_000.0", "1000"],
                  ["nan", "NaN", "-nan"], ["inf", "Infinity", "+inf"], ["\u0661\u0662\u0663", "123"], ["0", "00", "0.0", "-0"],
                  ["s3cret", "S3CRET", "s3cret "], ["caf\u00e9", "cafe\u0301"], ["20240117", "20240118", "2024011.7e1"]]
+# secrets that HMAC ITSELF identifies: the key is zero-padded to the hash's block size, so b"k" and b"k\x00" are one HMAC key
+# (likewise a key longer than the block and its digest - binary, not expressible as a secret text here).  Inherent to HMAC,
+# not to cashews: outside `MacInjective`, inside `MacInjectiveUpTo` (Props/C10.lean, mac_equivalent_secrets_accept).  Swapped
+# like the spellings, but mirrored only (class secretswap_hmac_equivalent): the blob IS accepted, by the code and by the model.
+HMAC_EQUIVALENT_SECRETS = [["k", "k\x00", "k\x00\x00"], ["s3cret", "s3cret\x00"]]
 SECRET_VIAS = ("url", "kwstr", "kw")
 
 
@@ -552,7 +579,8 @@ def swap_scenarios(chk: Check):
             return todo
 
         out.append((f"keys:{conf.name()}", conf, writes, attacks))
-    for gi, group in enumerate(SECRET_GROUPS):
+    for gi, group in enumerate(SECRET_GROUPS + HMAC_EQUIVALENT_SECRETS):
+        swap_class = "secretswap_spelling" if gi < len(SECRET_GROUPS) else "secretswap_hmac_equivalent"
         digest = S.KEYED[(gi + chk.seed) % 3]
         pt = ["default", "json", None][(gi + chk.seed) % 3] if chk.thorough or gi % 2 else "default"
         for via in ("url", "kwstr"):
@@ -568,12 +596,12 @@ def swap_scenarios(chk: Check):
                     continue
                 conf = S.Conf(pt, sec, digest, via)
 
-                def attacks(legit, group=group, sec=sec, via=via, usable=usable):
+                def attacks(legit, group=group, sec=sec, via=via, usable=usable, swap_class=swap_class):
                     todo = []
                     for other in group:
                         for rv in ("url", "kwstr"):
                             if other != sec and usable[(other, rv)] == "signed":
-                                todo.append(("secretswap_spelling", "k", legit["k"], (other, rv)))
+                                todo.append((swap_class, "k", legit["k"], (other, rv)))
                             elif other != sec and usable[(other, rv)].startswith("raises"):
                                 todo.append(("reader_secret_unusable", "k", legit["k"], (other, rv)))
                     for v2 in SECRET_VIAS:
@@ -659,7 +687,7 @@ def report(chk: Check, conf, writes, legit, item):
         "writes": pairs_src(writes),
         "legit": {k: b.hex() for k, b in legit.items()},
         "attack": {"class": r["class"], "read_key": r["key"], "blob": r["blob"].hex(), "reader_secret": r["secret"],
-                   "reader_via": r.get("via", conf.via)},
+                   "reader_via": r.get("via", conf.via), **({"tx": r["tx"], "phase": r["phase"]} if r.get("tx") else {})},
         "observed": {"get": repr(r["get"]), "get_many": repr(r["many"]), "get_match": repr(r["match"]),
                      "unpickler_calls": [p.hex() for p, _, _ in r["loads"]]},
         "replay_cmd": "./check C10 --replay <this file>",
@@ -746,6 +774,13 @@ def run(chk: Check) -> int:
                 v = type(v)(v.payload[:16])
             writes.append((k, v))
         scenarios.append((f"unsigned:{i}", conf, writes, None))
+    # transactions x signed storage: the same attacks with the blob put back INSIDE an open transaction (each mode), read
+    # inside it and again after its commit
+    for i in range(chk.budget(3, 9)):
+        conf = S.Conf(["default", "json", None][(i + i // 3 + chk.seed) % 3], "s3cret", S.KEYED[i % 3])
+        mode = TX_MODES[(i + i // 3 + chk.seed) % 3]
+        scenarios.append((f"tx:{mode}:{i}", conf, gen_writes(chk.rng, conf), None))
+    tx_attacks: dict = {}
     exhaustive_blobs = 0
     full_blobs = 0
     # full-alphabet sweep at the structural positions: quick = one blob per keyed digest, each under another pickler (which
@@ -766,11 +801,16 @@ def run(chk: Check) -> int:
             if conf.probe() != "signed" or rprobe != "signed":
                 corpus_skipped.append(f"{origin}: writer {conf.probe()}, reader {rprobe}")
                 continue
+            tx = attack.get("tx") if isinstance(attack, dict) else None
             if isinstance(attack, dict):
                 # symbolic attack: needs the stored forms first
                 legit0, _, _ = run_scenario(conf, writes, chk.rng, False, attacks=[], write_log=[])
                 attack = derive_attack(attack, legit0, conf)
-            legit, recs, nbp = run_scenario(conf, writes, chk.rng, chk.thorough, attacks=[attack], write_log=[])
+            legit, recs, nbp = run_scenario(conf, writes, chk.rng, chk.thorough, attacks=[attack], write_log=[], tx_mode=tx)
+        elif origin.startswith("tx:"):
+            mode = origin.split(":")[1]
+            legit, recs, nbp = run_scenario(conf, writes, chk.rng, False, stride=chk.budget(12, 3), tx_mode=mode)
+            tx_attacks[mode] = tx_attacks.get(mode, 0) + len(recs) // 2
         else:
             # quick: every offset of every blob, a handful of substitute bytes; thorough: all 255 substitutes
             gi = int(origin.split(":")[1]) if origin.startswith("gen:") else None
@@ -908,6 +948,14 @@ def run(chk: Check) -> int:
         "configurations": conf_hist,
         "interesting_states_cases": stats,
         "confusable_texts": swap_cov,
+        "attacks_inside_transactions": {
+            "by_mode": tx_attacks,
+            "rule": "for one scenario per transaction mode (quick; thorough: every mode x every keyed digest) the reader opens "
+                    "cache.transaction(mode), puts each corrupted / foreign blob back with set_raw inside it, reads it through get, get_many "
+                    "and get_match inside the transaction, lets the transaction commit and reads again: both phases are judged and "
+                    "compared with the model like a read outside any transaction (a raw write is not a transactional write: it goes "
+                    "to the backend, the overlay never holds stored forms)",
+        },
         "trusted_base": TRUSTED,
         "partial": "the MAC is abstract in the proof (idealised as collision-free for the integrity theorem) and real (stdlib hmac) in the "
                    "sweep; blobs whose digest label was changed are outside C10's quantifier: a reader configured with md5 accepts a blob "
@@ -932,12 +980,12 @@ def replay(chk: Check, path: str) -> int:
         attack = derive_attack(a, legit0, conf)
     else:
         attack = (a["class"], a["read_key"], bytes.fromhex(a["blob"]), _reader(a, a["reader_secret"]))
-    legit, recs, nbp = run_scenario(conf, writes, chk.rng, False, attacks=[attack], write_log=[])
+    legit, recs, nbp = run_scenario(conf, writes, chk.rng, False, attacks=[attack], write_log=[], tx_mode=a.get("tx"))
     if "legit" in c:
         legit = {k: bytes.fromhex(v) for k, v in c["legit"].items()}
     items = judge(conf, legit, recs, S.Ids(), {}, nbp)
     for r in recs:
-        print(f"read {r['key']!r} blob={r['blob']!r}\n  get={r['get']!r} get_many={r['many']!r} get_match={r['match']!r} "
+        print(f"read {r['key']!r}{' ' + r['phase'] if r.get('phase') else ''} blob={r['blob']!r}\n  get={r['get']!r} get_many={r['many']!r} get_match={r['match']!r} "
               f"unpickler_calls={[p for p, _, _ in r['loads']]!r}")
     bad = 0
     for r, kind, sig, text in items:
